@@ -68,6 +68,21 @@ def make_field(grid, f):
         d = 0.5 + 0.5 * np.cos((idx * rng.uniform(0.1, 2.0, idx.shape[-1])).sum(-1) + rng.uniform(0, 6))
     elif k == "gradient":
         d = idx[..., 0] / max(1, shape[0] - 1)
+    elif k == "thread":
+        # one thin band that winds many times around the (periodic) first axis of a narrow 2-D image, like the thread of a screw:
+        # the labelling sees one cluster per winding, linked pairwise through the boundary - a long chain of merges
+        d = np.zeros(shape)
+        w = shape[0]
+        for n in range((shape[1] - 1) // 4):
+            a = 4 * n
+            d[0, a : a + 3] = 1
+            d[:, a + 2] = 1
+            d[w - 1, a + 2 : a + 5] = 1
+    elif k == "speckles":
+        # very many tiny clusters (isolated cells on a sparse lattice, a fraction of them missing)
+        d = np.zeros(shape)
+        sl = tuple(slice(0, None, 2) for _ in shape)
+        d[sl] = (rng.random(d[sl].shape) < f["density"]).astype(float)
     else:
         d = np.zeros(shape)
         for _ in range(int(rng.integers(1, 5))):
@@ -199,6 +214,28 @@ class C09(Property):
     def strategy(self, tier):
         return st.one_of(locate_specs(tier), locate_specs(tier), locate_specs(tier), render_specs(tier), T.time_courses(mode="free", tier=tier).map(lambda s: {"kind": "track", **s}), invalid_specs(tier))
 
+    # large structures (a fixed sweep): long chains of clusters linked through a periodic boundary, images with thousands of clusters
+    def exhaustive_jobs(self, tier):
+        jobs = []
+        for n in ([3, 40, 300, 1100, 1600] if tier == "quick" else [3, 40, 300, 1100, 1600, 3000, 6000]):
+            for per in ([True, False], [True, True]):
+                jobs.append({"domain": "large-structures", "what": "thread", "n": n, "periodic": per})
+        for shape in ([[50, 44], [16, 14, 12]] if tier == "quick" else [[50, 44], [16, 14, 12], [70, 60], [24, 20, 18]]):
+            jobs.append({"domain": "large-structures", "what": "speckles", "shape": shape})
+        return jobs
+
+    def expand(self, job):
+        base = {"kind": "locate", "threshold": "number", "t_frac": 0.5, "minimal_radius": 0, "interface_width": None, "modes": 0, "refine": False, "levels": "default", "adjust_values": False, "tolerance": None, "ls_params": None, "via": "locate_droplets"}
+        if job["what"] == "thread":
+            g = {"family": "cart", "origin": [0.0, -2.0], "shape": [3, 4 * job["n"] + 1], "spacing": [1.0, 0.5], "periodic": job["periodic"]}
+            yield {**base, "grid": g, "field": {"kind": "thread", "seed": 0, "scale": 1.0, "offset": 0.0, "density": 0.3}}
+            yield {**base, "grid": g, "field": {"kind": "thread", "seed": 0, "scale": 1e-3, "offset": 0.5, "density": 0.3}, "threshold": "auto", "via": "tracker"}
+        else:
+            dim = len(job["shape"])
+            g = {"family": "cart", "origin": [0.0] * dim, "shape": job["shape"], "spacing": [0.8] * dim, "periodic": [True] + [False] * (dim - 1)}
+            for dens in (0.35, 0.9):
+                yield {**base, "grid": g, "field": {"kind": "speckles", "seed": 5, "scale": 1.0, "offset": 0.0, "density": dens}, "minimal_radius": "-inf"}
+
     def check(self, spec, ctx: Ctx):
         getattr(self, "_" + spec["kind"])(spec, ctx)
 
@@ -246,6 +283,8 @@ class C09(Property):
             ra["least_squares_params"] = dict(spec["ls_params"])  # one dict for all candidates / frames of this request, as a user would pass it
         field = ScalarField(grid, data)
         ctx.cls("locate", spec["grid"]["family"], f"refine:{spec['refine']}", f"modes:{modes}", f"field:{spec['field']['kind']}")
+        if data.size > 4096:
+            ctx.cls("cells>" + str(max(t for t in (4096, 16384, 65536) if data.size > t)))
         if spec["via"] == "tracker":
             tr = DropletTracker(1, threshold=thr, minimal_radius=mr, refine=spec["refine"], refine_args=dict(ra) if ra else None, perturbation_modes=modes)
             tr.initialize(field)
